@@ -204,6 +204,17 @@ Theorem C10_identity_change_voids_cookies : forall st now k now2 m,
 Proof. exact identity_change_voids_cookies. Qed.
 Print Assumptions C10_identity_change_voids_cookies.
 
+(* A forged transport message — whatever receiver index (live or not), counter and source it carries — can be
+   erased from any history: the device's later behaviour, including the acceptance of genuine packets of the
+   same session, is the same. *)
+Theorem C10_forged_transport_erasable : forall st pre post now m q al nonce body,
+  m_type m = MessageTransportType -> (forall p, m_content m <> CTransport (Some p)) ->
+  final step st (pre ++ ERecv now m q al nonce body :: post) = final step st (pre ++ post) /\
+  outs step st (pre ++ ERecv now m q al nonce body :: post) =
+    outs step st pre ++ [] :: outs step (final step st pre) post.
+Proof. exact forged_transport_erasable. Qed.
+Print Assumptions C10_forged_transport_erasable.
+
 (* Non-vacuity: under forced load an initiation with valid MAC1 and zero MAC2 from 192.0.2.7:5555
    (address 1) gets a cookie reply; the same initiation with MAC2 under that cookie gets the
    response; from port 5556 it gets another cookie reply; after 121 s likewise, under a new secret. *)
